@@ -11,7 +11,10 @@ FUNCTIONS = ["StockDrivenDSM._compute_inflow_manual", "StockDrivenDSM._compute_i
 ASSUMPTIONS = ["every cohort's first-interval survival share >= 1/20 (the property's precondition)", "time items strictly increasing",
                "scipy.linalg.solve_triangular satisfies its documented contract (fresh x with tri(a) x = b); LAPACK itself is trusted"]
 OUTSIDE = ["n beyond the bound", "IEEE rounding / conditioning of the triangular solve"]
+VARIANTS = 'arrays as transposed views; shared lifetime object re-parameterised between the constructions; stock-driven model computed (and read) before; 17 and 33 time items on concrete 0/1 tables'
 BOUNDS = {"quick": dict(n=[3, 4], extra=["-", "r2"], grids=dsm.GRIDS), "thorough": dict(n=[3, 4, 5, 6], extra=["-", "r2", "r2xp2"], grids=dsm.GRIDS)}
+for _t in BOUNDS.values():
+    _t["variants_beyond_the_base_enumeration"] = VARIANTS
 # dtype shadow: every shadowed configuration is run once more on integer-dtype arrays (differential concrete run)
 DTYPE_SHADOW = lambda cfg: cfg["h"] != "fixed_concrete"
 OPTS = {"quick": dict(shadow_every=3, timeout_ms=20000), "thorough": dict(shadow_every=5, timeout_ms=120000)}
